@@ -212,7 +212,13 @@ def unary_mul_case(case, res):
                      ("q *= 2j; q /= 4j", lambda q: q.__imul__(2j).__itruediv__(4j), pv / 2, False),
                      ("np.multiply(p, 2j, out=real q)", lambda q: np.multiply(p, 2j, out=q), 2 * pv, True),
                      ("np.add(p, p, out=imaginary q)", lambda q: np.add(p, p, out=(q.__imul__(1j))), 2 * pv, False),
-                     ("np.negative(p, out=imaginary q)", lambda q: np.negative(p, out=(q.__imul__(1j))), -pv, False)]
+                     ("np.negative(p, out=imaginary q)", lambda q: np.negative(p, out=(q.__imul__(1j))), -pv, False),
+                     ("q += q", lambda q: q.__iadd__(q), 2 * pv, False), ("q += 1.25", lambda q: q.__iadd__(1.25), pv + F(5, 4), False),
+                     ("q -= Phase(3, .5)", lambda q: q.__isub__(mk(3.0, 0.5)), pv - F(7, 2), False),
+                     ("q /= 4", lambda q: q.__itruediv__(4), pv / 4, False), ("q *= -0.5", lambda q: q.__imul__(-0.5), -pv / 2, False),
+                     ("np.absolute(q, out=q)", lambda q: np.absolute(q, out=q), abs(pv), False),
+                     ("np.negative(q, out=q)", lambda q: np.negative(q, out=q), -pv, False),
+                     ("np.subtract(1, q, out=q)", lambda q: np.subtract(1, q, out=q), 1 - pv, False)]
             for nm, fn, want, wimag in steps:
                 q0 = mk(n, f)
                 r = attempt(f"in-place|{nm}", lambda: fn(q0))
